@@ -22,6 +22,7 @@ package zap
 
 import (
 	"fmt"
+	"reflect"
 	"time"
 
 	"go.uber.org/zap/zapcore"
@@ -221,8 +222,31 @@ type stringers[T fmt.Stringer] []T
 
 func (os stringers[T]) MarshalLogArray(arr zapcore.ArrayEncoder) error {
 	for _, o := range os {
-		arr.AppendString(o.String())
+		if err := appendStringer(arr, o); err != nil {
+			return err
+		}
 	}
+	return nil
+}
+
+// appendStringer appends the output of the value's String method, applying
+// the same policy as Stringer fields: a panic from String (from a nil
+// reference or otherwise) must not escape the logging call. A nil pointer is
+// rendered as "<nil>"; any other panic is returned as an error, which ends up
+// in the "<key>Error" field of the entry.
+func appendStringer(arr zapcore.ArrayEncoder, stringer fmt.Stringer) (retErr error) {
+	defer func() {
+		if err := recover(); err != nil {
+			if v := reflect.ValueOf(stringer); v.Kind() == reflect.Ptr && v.IsNil() {
+				arr.AppendString("<nil>")
+				return
+			}
+
+			retErr = fmt.Errorf("PANIC=%v", err)
+		}
+	}()
+
+	arr.AppendString(stringer.String())
 	return nil
 }
 
